@@ -297,6 +297,35 @@ def run_transforms(ctx: Ctx) -> None:
             ctx.report("T15.transform-accessor", fm, f"accessor={op} composite=SequentialTransform symptom={sym}", detail[:300])
 
 
+def run_transformer_accessors(ctx: Ctx) -> None:
+    """SpatialTransformer (image / point set transformers) wrap a transform: their functional accessor leaves the wrapped transform alone."""
+    from .t6_transforms import TEnv, NONRIGID
+    prog = ctx.prog
+    T = "deepali.spatial.transformer"
+    fm = prog.func(T, "SpatialTransformer.condition")
+    ctx.fn(fm)
+    mod, cls, kw = NONRIGID[0]
+    for wname in ("PointSetTransformer", "ImageTransformer"):
+        for what, a_, k_ in (("positional", ("A",), {}), ("keyword", (), {"gain": "G"})):
+            def th(wname=wname, a_=a_, k_=k_):
+                env = TEnv(ctx, 2)
+                it = env.it
+                t = env.make(mod, cls, kw, "callable")
+                it.method(t, "condition_", Rat.atom("c0"))
+                it.method(t, "update")
+                w = it.new(prog.cls(T, wname), t)
+                before = snapshot(w)
+                r = it.method(w, "condition", *[Rat.atom(x) for x in a_], **{k: Rat.atom(v) for k, v in k_.items()})
+                if r is w:
+                    return False, "condition(...) returned the receiver itself"
+                after = snapshot(w)
+                if after != before:
+                    return False, (f"{wname}.condition(...) changed the transformer it was called on (the copy shares the wrapped transform): "
+                                   f"{_first_diff(before, after)}")
+                return True, ""
+            _guard(ctx, "T15.transform-accessor", f"{wname}:condition:{what}", fm, f"accessor=condition wrapper={wname} form={what}", th)
+
+
 def _first_diff(a, b, path="") -> str:
     if type(a) != type(b):
         return f"{path}: {str(a)[:60]} -> {str(b)[:60]}"
@@ -355,3 +384,63 @@ def run_copy_evaluation(ctx: Ctx) -> None:
                         return False, f"{name} ({kind} parameters): after evaluating its inverse the original's matrix differs"
                 return True, ""
             _guard(ctx, "T15.copy-evaluation", f"{name}:{kind}", fm, f"class={name} params={kind} evaluate the inverse", th)
+
+
+def run_evaluation_pure(ctx: Ctx) -> None:
+    """Evaluating a transform (tensor(), call, disp()) is a read: the parameters of the transform and of its members stay as they were."""
+    from .t67_transforms import LEnv, LINEAR, _mk_linear, _linear_cls, _members
+    prog = ctx.prog
+    C = "deepali.spatial.composite"
+    ctx.rule("T15.evaluation-pure", "tensor(), a call on points and disp() of every linear model, and of SequentialTransform / MultiLevelTransform "
+                                    "composites of linear models holding fixed parameters (plain tensors: getters hand out the tensor itself), leave "
+                                    "the parameter tensors of the transform and of every member unchanged — checked after each evaluation and "
+                                    "twice (an accumulation into a member's matrix shows on the second evaluation at the latest)")
+
+    def check(it, t, members, what):
+        held = [it.method(m, "data") for m in members]
+        held0 = [h.clone() for h in held]
+        D = len(it.method(it.method(t, "grid"), "size"))
+        x = STensor.symbols("x", [1, 2, D])
+        for rnd in (1, 2):
+            for ev_name, ev in (("tensor()", lambda: it.method(t, "tensor")), ("call", lambda: it.call_value(t, [x], {})),
+                                ("disp()", lambda: it.method(t, "disp"))):
+                try:
+                    ev()
+                except InterpError as e:
+                    if e.exc_type == "NotImplementedError":
+                        continue
+                    raise
+                for k, (h, h0) in enumerate(zip(held, held0)):
+                    if not all(to_rat(a).equals(to_rat(b)) for a, b in zip(h.flat(), h0.flat())):
+                        return False, (f"{what}: {ev_name} (evaluation {rnd}) wrote into the parameters of "
+                                       f"{'the transform' if len(members) == 1 else f'member {k} ({members[k].cls.name})'}")
+        return True, ""
+
+    for name, dims in LINEAR:
+        ci = _linear_cls(ctx, name)
+        fm = prog.find_method(ci, "tensor")
+        ctx.fn(fm)
+
+        def th(name=name, D=dims[-1]):
+            env = LEnv(ctx, D, symbolic_grid=False)
+            t = _mk_linear(env, name, "buffer")
+            env.set_params(t)
+            return check(env.it, t, _members(env, t), name)
+        _guard(ctx, "T15.evaluation-pure", name, fm, f"class={name} fixed parameters", th)
+    for cname in ("SequentialTransform", "MultiLevelTransform"):
+        ci = prog.cls(C, cname)
+        fm = prog.find_method(ci, "tensor")
+        ctx.fn(fm)
+        for pair in (("HomogeneousTransform", "HomogeneousTransform"), ("Translation", "HomogeneousTransform"),
+                     ("HomogeneousTransform", "AnisotropicScaling")):
+            def thc(cname=cname, pair=pair, ci=ci):
+                env = LEnv(ctx, 2, symbolic_grid=False)
+                it = env.it
+                ms = []
+                for nm in pair:
+                    m = _mk_linear(env, nm, "buffer")
+                    env.set_params(m)
+                    ms.append(m)
+                t = it.new(ci, *ms)
+                return check(it, t, ms, f"{cname}({', '.join(pair)})")
+            _guard(ctx, "T15.evaluation-pure", f"{cname}:{'+'.join(pair)}", fm, f"composite={cname} members={'+'.join(pair)}", thc)
